@@ -6,9 +6,10 @@ import json, os, shutil, subprocess, sys, time
 
 prop, mut = sys.argv[1], sys.argv[2]
 checks = sys.argv[3:] or [prop]
-wt = f"/tmp/wt-{prop}"
-src = f"/tmp/seed-{prop}/{mut}"
-dst = f"/verif/seeded/{prop}-{mut}"
+rnd = os.environ.get("ROUND", "")   # "" = first round, "2" = second round of independent changes
+wt = f"/tmp/wt{rnd}-{prop}"
+src = f"/tmp/seed{rnd}-{prop}/{mut}"
+dst = f"/verif/seeded/{prop}-{mut}" + (f"-r{rnd}" if rnd else "")
 env = dict(os.environ, CARGO_NET_OFFLINE="true", TZ="UTC")
 
 def run(cmd, cwd=None, timeout=3600, extra_env=None):
@@ -60,4 +61,4 @@ out_meta = {"property": prop, "mutant": mut, "summary": meta.get("summary"), "ne
             "confirmed_by_me": res["confirmed"], "checks_run_against_it": res["checks"],
             "how": "tools/seed_eval.py: demo on clean worktree, git apply, demo again, full suite, then ./check <ID> quick with VERIF_REPO=<worktree>, then reverted"}
 json.dump(out_meta, open(f"{dst}/meta.json", "w"), indent=1)
-print(json.dumps({"id": f"{prop}-{mut}", "confirmed": {k: v for k, v in res["confirmed"].items() if k != "demo_output_tail"}, "checks": {c: (r["exit"], r["seconds"]) for c, r in res["checks"].items()}}))
+print(json.dumps({"id": f"{prop}-{mut}" + (f"-r{rnd}" if rnd else ""), "confirmed": {k: v for k, v in res["confirmed"].items() if k != "demo_output_tail"}, "checks": {c: (r["exit"], r["seconds"]) for c, r in res["checks"].items()}}))
